@@ -63,9 +63,11 @@ Failed(e) ==
 VARIABLES sh, l
 Init == sh \in 0 .. (NSh - 1) /\ l = sh + 1
 Next == /\ l <= Len(Trace)
+        /\ TLCSet(7, 0)                   \* set by Semirings.tla when the oracle's arithmetic leaves the 32-bit range
         /\ LET e == Trace[l]
                f == Failed(e)
-           IN IF f = {} THEN TRUE ELSE PrintT(<<"REJECT", e.tid, f>>)
+           IN IF f = {} THEN (IF TLCGet(7) = 0 THEN TRUE ELSE PrintT(<<"REJECT", e.tid, {"OUTSKIP"}>>))
+              ELSE PrintT(<<"REJECT", e.tid, IF TLCGet(7) = 0 THEN f ELSE f \cup {"OUTSKIP"}>>)
         /\ l' = l + NSh
         /\ sh' = sh
 =============================================================================
